@@ -144,7 +144,7 @@ pub fn run_check(prop_id: &str, tier: Tier, seed: u64, part_out: Option<&Path>, 
                 }
             }
             let t0 = Instant::now();
-            let stats = st.run_all(prop_id, seed, tier.pick(600, 3000));
+            let stats = st.run_all(prop_id, seed, tier.pick(600, 3000), p.scale);
             eprintln!(
                 "[{}:{}:{}] evals={} nontrivial={} cmp={} aborted={} excluded={:?} {:.1}s",
                 prop_id,
